@@ -13,11 +13,17 @@ pub struct Case {
     #[serde(with = "f64_bits_vec")]
     pub widths: Vec<f64>,
     pub pen: PenSpec,
+    /// Calls made on the same thread *before* the judged one (each is
+    /// judged too): a history, so that state kept between calls — a cache,
+    /// a reused buffer, something not reset on an early `Err` return —
+    /// shows up as a wrong partition in a later call of the same case.
+    #[serde(default)]
+    pub before: Vec<Case>,
 }
 
 pub struct P;
 
-pub fn check_partition(frags: &[Frag], lines: &[&[Frag]], what: &str) -> Result<(), String> {
+pub fn check_partition<T>(frags: &[T], lines: &[&[T]], what: &str) -> Result<(), String> {
     if frags.is_empty() {
         chk!(
             lines.len() == 1 && lines[0].is_empty(),
@@ -57,7 +63,28 @@ pub fn check_partition(frags: &[Frag], lines: &[&[Frag]], what: &str) -> Result<
 }
 
 pub fn check(c: &Case) -> Outcome {
+    for (k, b) in c.before.iter().enumerate() {
+        if let Outcome::Fail(e) = check_one(b) {
+            return Outcome::Fail(format!("call {} of {}: {}", k + 1, c.before.len() + 1, e));
+        }
+    }
+    match check_one(c) {
+        Outcome::Fail(e) if !c.before.is_empty() => Outcome::Fail(format!(
+            "call {} of {} (after {} earlier calls on the same thread): {}",
+            c.before.len() + 1,
+            c.before.len() + 1,
+            c.before.len(),
+            e
+        )),
+        o => o,
+    }
+}
+
+fn check_one(c: &Case) -> Outcome {
     let mut classes = vec![];
+    if !c.before.is_empty() {
+        classes.push("call_history");
+    }
     let ff = wrap_first_fit(&c.frags, &c.widths);
     if let Err(e) = check_partition(&c.frags, &ff, "wrap_first_fit") {
         return Outcome::Fail(e);
@@ -76,6 +103,24 @@ pub fn check(c: &Case) -> Outcome {
             }
             Err(_) => classes.push("optimal_err"),
         }
+    }
+    // the public dispatch layer, WrapAlgorithm::{FirstFit, OptimalFit}.wrap
+    // over `Word`s and usize widths (what `wrap` itself calls)
+    if let Some((texts, uw)) = super::c07::word_shaped(&c.frags, &c.widths) {
+        let words = super::c07::words_of(&c.frags, &texts);
+        let via = textwrap::WrapAlgorithm::FirstFit.wrap(&words, &uw);
+        if let Err(e) = check_partition(&words, &via, "WrapAlgorithm::FirstFit.wrap") {
+            return Outcome::Fail(e);
+        }
+        #[cfg(feature = "full")]
+        if classes.contains(&"optimal_ok") {
+            let algo = textwrap::WrapAlgorithm::OptimalFit(c.pen.penalties());
+            let via = algo.wrap(&words, &uw);
+            if let Err(e) = check_partition(&words, &via, "WrapAlgorithm::OptimalFit.wrap") {
+                return Outcome::Fail(e);
+            }
+        }
+        classes.push("via_wrap_algorithm_dispatch");
     }
     if c.widths.is_empty() {
         classes.push("no_line_widths");
@@ -140,7 +185,15 @@ impl Property for P {
                 2 => gen::penalties_any(),
             ],
         )
-            .prop_map(|(frags, widths, pen)| Case { frags, widths, pen });
+            .prop_map(|(frags, widths, pen)| Case { frags, widths, pen, before: vec![] });
+        // word-shaped fragments and integer width lists (also through
+        // WrapAlgorithm::wrap); an empty list in one case of eight
+        let wordish = (
+            prop::collection::vec(super::c07::int_frag(), 0..=n),
+            prop_oneof![7 => super::c07::int_widths(), 1 => Just(Vec::new())],
+            prop_oneof![3 => Just(PenSpec::DEFAULT), 2 => gen::penalties_moderate()],
+        )
+            .prop_map(|(frags, widths, pen)| Case { frags, widths, pen, before: vec![] });
         // more than 2^16 lines: many small fragments on narrow lines
         let huge = (gen::log_count(150_000), 1u32..=4, 0u32..=2, 1u32..=8).prop_map(|(n, w, ws, lw)| Case {
             frags: vec![
@@ -153,8 +206,32 @@ impl Property for P {
             ],
             widths: vec![lw as f64],
             pen: PenSpec::DEFAULT,
+            before: vec![],
         });
-        prop_oneof![2000 => normal, 1 => huge].boxed()
+        // histories: 1..=3 earlier calls, then the judged one. Half of the
+        // earlier calls are built to end in Err(OverflowError) (huge widths
+        // against a huge line width), the rest are ordinary.
+        let overflowing = (1usize..=6, 0usize..=4).prop_map(|(k, lead)| {
+            let mut frags = vec![Frag { w: 1.0, ws: 1.0, p: 0.0 }; lead];
+            frags.extend(vec![Frag { w: 1e200, ws: 1.0, p: 0.0 }; k]);
+            Case { frags, widths: vec![1e200], pen: PenSpec::DEFAULT, before: vec![] }
+        });
+        let simple = || {
+            (
+                prop::collection::vec(super::c07::int_frag(), 0..=10),
+                super::c07::int_widths(),
+            )
+                .prop_map(|(frags, widths)| Case { frags, widths, pen: PenSpec::DEFAULT, before: vec![] })
+        };
+        let history = (
+            prop::collection::vec(prop_oneof![1 => overflowing.boxed(), 1 => simple().boxed()], 1..=3),
+            simple(),
+        )
+            .prop_map(|(before, mut last)| {
+                last.before = before;
+                last
+            });
+        prop_oneof![1500 => normal, 350 => wordish, 150 => history, 1 => huge].boxed()
     }
     fn check(c: &Case, _m: Mode) -> Outcome {
         check(c)
@@ -208,5 +285,5 @@ pub fn decode(data: &[u8]) -> Case {
     while r.remaining() >= 3 && frags.len() < 40 {
         frags.push(Frag { w: f(r.u8()), ws: f(r.u8()), p: f(r.u8()) });
     }
-    Case { frags, widths, pen }
+    Case { frags, widths, pen, before: vec![] }
 }
